@@ -490,6 +490,26 @@ func translateFunc(fd *ast.FuncDecl, consts map[string]constant.Value, funcs map
 	return fmt.Sprintf("Definition g_%s %s :=\n  %s.\n", fd.Name.Name, strings.Join(params, " "), body), true
 }
 
+// recvTypeName: the type name of a method receiver (*T, T, *T[K, V], ...)
+func recvTypeName(e ast.Expr) string {
+	for {
+		switch x := e.(type) {
+		case *ast.StarExpr:
+			e = x.X
+		case *ast.IndexExpr:
+			e = x.X
+		case *ast.IndexListExpr:
+			e = x.X
+		case *ast.ParenExpr:
+			e = x.X
+		case *ast.Ident:
+			return x.Name
+		default:
+			return ""
+		}
+	}
+}
+
 func findFunc(files map[string]*ast.File, name string) *ast.FuncDecl {
 	for _, f := range files {
 		for _, d := range f.Decls {
@@ -876,6 +896,67 @@ func main() {
 		}
 		fmt.Fprintf(&cb, "(* rbmutex.go: Lock takes rw first; clears the bias before scanning the slots; the scan starts at this slot and runs to len(rslots); fastRlock re-checks the bias after its CAS and rolls the slot back *)\nDefinition c_rb_shape : bool * bool * Z * bool * bool * bool := (%v, %v, %d, %v, %v, %v).\n", lockFirst, clearFirst, scanFrom, scanAll, recheck, rollback)
 		rep.Consts = append(rep.Consts, "rb_shape")
+	}
+
+	// store.go, Store.Close: the loop over the shards comes first, nothing in Close can leave before its end, every shard is closed under its own lock
+	{
+		var fdc *ast.FuncDecl
+		for _, f := range internal {
+			for _, d := range f.Decls {
+				if fd, ok := d.(*ast.FuncDecl); ok && fd.Name.Name == "Close" && fd.Recv != nil && len(fd.Recv.List) == 1 && recvTypeName(fd.Recv.List[0].Type) == "Store" {
+					fdc = fd
+				}
+			}
+		}
+		if fdc == nil || fdc.Body == nil {
+			fail("Store.Close not found")
+		} else {
+			shardsFirst, noExit, underLock := false, true, false
+			var body []ast.Stmt
+			for _, st := range fdc.Body.List {
+				if es, ok := st.(*ast.ExprStmt); ok {
+					if call, ok := es.X.(*ast.CallExpr); ok && exprString(call.Fun) == "verifYield" {
+						continue
+					}
+				}
+				body = append(body, st)
+			}
+			if len(body) > 0 {
+				if rs, ok := body[0].(*ast.RangeStmt); ok && exprString(rs.X) == "s.shards" {
+					shardsFirst = true
+					// body: <v>.mu.Lock(); <v>.closed = true; ...; <v>.mu.Unlock()  with nothing conditional
+					v := exprString(rs.Value)
+					locked, closedUnder := false, false
+					for _, in := range rs.Body.List {
+						switch x := in.(type) {
+						case *ast.ExprStmt:
+							if call, ok := x.X.(*ast.CallExpr); ok {
+								switch exprString(call.Fun) {
+								case v + ".mu.Lock":
+									locked = true
+								case v + ".mu.Unlock":
+									locked = false
+								}
+							}
+						case *ast.AssignStmt:
+							if len(x.Lhs) == 1 && exprString(x.Lhs[0]) == v+".closed" && len(x.Rhs) == 1 && exprString(x.Rhs[0]) == "true" && locked {
+								closedUnder = true
+							}
+						}
+					}
+					underLock = closedUnder
+				}
+			}
+			ast.Inspect(fdc.Body, func(m ast.Node) bool {
+				switch m.(type) {
+				case *ast.ReturnStmt, *ast.BranchStmt, *ast.IfStmt, *ast.SwitchStmt, *ast.SelectStmt, *ast.GoStmt, *ast.DeferStmt:
+					noExit = false
+				}
+				return true
+			})
+			fmt.Fprintf(&cb, "(* store.go, Store.Close: the loop over s.shards is its first statement; its body has no return / break / if / switch / select / go / defer; each shard's closed flag is set under that shard's lock *)\nDefinition c_close_shape : bool * bool * bool := (%v, %v, %v).\n", shardsFirst, noExit, underLock)
+			rep.Consts = append(rep.Consts, "close_shape")
+		}
 	}
 
 	// singleflight.go, waiter branch of Do: is the result copied out of the call record before the reference is dropped?
